@@ -22,6 +22,7 @@ import Verif.Model.Renew
   hrenew / hrekey: the HTTP handlers on the request as received (see `hrenew`, `hrekey` below)
       output: created | badrequest | refuse | crash
   fact name=<n>   output: table:<the Lean table of that name (Model/Renew.lean section 9), items joined by ','>
+  link …  histories of issue / renew / revoke in a standalone or linked deployment (see `link`)
   conv …  claims conversion ca.json <-> linkedca for every provisioner type (see `conv`)
   srv …   the CA process surface: TLS handshake + handlers (see `srv`)
   mig …   renewal flags through configuration, migration to the admin database, restart (see `mig`)
@@ -281,6 +282,44 @@ def hrekey (kv : List (String × String)) : Option String := do
   pure (apiS (handleRekey current env i dummyCert
     ⟨(← b "peer"), (← b "body"), (← b "csr"), (← b "sig"), [1]⟩))
 
+/-- link dep=standalone|linked ops=<op,…>|- serial=<n> loaded=<id~prov;…>|- ext=… nyv= exp=
+    ops: i<serial>:<provisioner id> (issued) | n<parent>:<serial> (renewed) | r<serial>:<0|1> (revoked,
+    1 = the request presented the certificate). The revocation lookup and the database lookup of the
+    gate are computed by the model from the history (`gateAfter`). -/
+def link (kv : List (String × String)) : Option String := do
+  let dep ← match (← lookup kv "dep") with
+    | "standalone" => pure Deployment.standalone | "linked" => pure Deployment.linked | _ => none
+  let op? : String → Option StoreOp := fun t =>
+    match t.toList with
+    | 'i' :: rest =>
+      match (String.ofList rest).splitOn ":" with
+      | [a, b] => do pure (.issue (← a.toNat?) b)
+      | _ => none
+    | 'n' :: rest =>
+      match (String.ofList rest).splitOn ":" with
+      | [a, b] => do pure (.renewed (← a.toNat?) (← b.toNat?))
+      | _ => none
+    | 'r' :: rest =>
+      match (String.ofList rest).splitOn ":" with
+      | [a, b] => do pure (.revoke (← a.toNat?) (← bool? b))
+      | _ => none
+    | _ => none
+  let ops ← list? op? (← lookup kv "ops")
+  let serial ← (← lookup kv "serial").toNat?
+  let loadedS ← lookup kv "loaded"
+  let table : List (String × Stored) ← if loadedS = "-" then pure [] else
+    (loadedS.splitOn ";").mapM fun e =>
+      match e.splitOn "~" with
+      | [k, v] => do pure (k, (← prov? v))
+      | _ => none
+  let loaded := fun id => (table.find? (·.1 == id)).map (·.2)
+  let ext ← extl? (← lookup kv "ext")
+  let i := gateAfter dep ops serial loaded ext (← bool? (← lookup kv "nyv")) (← bool? (← lookup kv "exp"))
+  match Renew.decide current i with
+  | .crash => pure "crash"
+  | .val .allow => pure "allow"
+  | .val (.refuse r) => pure s!"refuse:{reasonS r}"
+
 /-- conv type=<T> dir=c2l|roundtrip|l2c pc=nil|<d><a>   output: flags=nil|<d><a>
     (the conversion of the renewal flags is the same function for every provisioner type) -/
 def conv (kv : List (String × String)) : Option String := do
@@ -380,6 +419,7 @@ def eval (line : String) : Option String :=
     | "mig" => mig kv
     | "srv" => srv kv
     | "conv" => conv kv
+    | "link" => link kv
     | "hrenew" => hrenew kv
     | "hrekey" => hrekey kv
     | "fidspec" =>
